@@ -198,7 +198,7 @@ fn gen_guest(rng: &mut Rng) -> GuestSpec {
         sub_delay: rng.range(1, 8) as u16,
         init_ccr: if rng.chance(1, 2) { Some(rng.u8()) } else { None },
         stack_off: if rng.chance(1, 2) { 0 } else { 4 * rng.below(64) as u16 },
-        exit_style: if rng.chance(1, 2) { 0 } else { rng.below(5) as u8 },
+        exit_style: if rng.chance(1, 2) { 0 } else { rng.below(9) as u8 },
     }
 }
 
@@ -228,6 +228,7 @@ fn fault_name(a: &Action) -> &'static str {
         Action::SetPc(_) => "set_pc",
         Action::SetCcr(_) => "set_ccr",
         Action::ClockJump(_) => "clock_jump",
+        Action::PeerGone => "peer_gone",
     }
 }
 
@@ -311,7 +312,13 @@ impl Property for C15 {
                 10 => Action::Irq(rng.range(0, 255) as u8),
                 11 => Action::Poke { addr: 4 * rng.below(64) as u32 + rng.below(4) as u32, val: rng.u8() },
                 12 | 13 => Action::Lines((0..rng.range(1, 5)).map(|_| gen_fuzz_line(rng)).collect()),
-                14 => Action::SetCcr(rng.u8()),
+                14 => {
+                    if rng.chance(1, 2) {
+                        Action::SetCcr(rng.u8())
+                    } else {
+                        Action::PeerGone
+                    }
+                }
                 _ => Action::Poke { addr: 0xffff80 + rng.below(10) as u32, val: rng.u8() },
             };
             events.push(Event { trig: at, act });
